@@ -18,3 +18,4 @@ open GoRedis
 #print axioms C05_zrange_index
 #print axioms C05_zrange_byscore
 #print axioms C05_zadd
+#print axioms C05_source_shapes_match_model
